@@ -5,9 +5,14 @@ cd "$(dirname "$0")"
 export CARGO_NET_OFFLINE=true RUSTFLAGS="--cfg parol_verif"
 mkdir -p work
 cp -f /repo/Cargo.lock harness/Cargo.lock
-( cd harness && CARGO_TARGET_DIR=/verif/target cargo build --offline )
+# A target directory that was copied while a build was writing into it can hold inconsistent incremental
+# artefacts (link errors such as "undefined hidden symbol"): on failure the workspace-local crates are cleaned
+# (third-party crates stay cached) and the build is retried once.
+build_harness() { ( cd harness && CARGO_TARGET_DIR=/verif/target cargo build --offline ); }
+build_harness || { ( cd harness && CARGO_TARGET_DIR=/verif/target cargo clean --offline -p pv -p parol -p parol_runtime -p parol-macros ) ; rm -rf /verif/target/debug/incremental; build_harness; }
 python3 tools/gen_consts.py
 ( cd coq && coq_makefile -f _CoqProject -o Makefile && timeout 3000 make -j16 )
 ( cd ocaml && ./build.sh )
-( cd /repo && CARGO_TARGET_DIR=/verif/target/ls cargo build -p parol-ls --offline )
+build_ls() { ( cd /repo && CARGO_TARGET_DIR=/verif/target/ls cargo build -p parol-ls -p parol --offline ); }
+build_ls || { ( cd /repo && CARGO_TARGET_DIR=/verif/target/ls cargo clean --offline -p parol-ls -p parol -p parol_runtime -p parol-macros ); rm -rf /verif/target/ls/debug/incremental; build_ls; }
 echo setup done
